@@ -269,14 +269,14 @@ static void build_table()
 	for(unsigned nv : {3u, 4u, 5u})
 		add("Integrate_Gauss_Legendre(values,rule)", "rule=4,values=" + std::to_string(nv), nv == 4 ? ACCEPT : REJECT, [=]() { return Integrate_Gauss_Legendre(V(nv, 1.0), Compute_Gauss_Legendre_Roots_and_Weights(4, 0, 1)); });
 	// ---- Statistics -------------------------------------------------------------------------------------------------
-	for(double p : {-1e-9, 0.0, 0.3, 1.0, 1.0 + 1e-9})
+	for(double p : {-1e-9, 0.0, -0.0, 0.3, 1.0, 1.0 + 1e-9})	// (-0.0 is the number zero)
 	{
 		Side s = (p >= 0 && p <= 1) ? ACCEPT : REJECT;
 		if(std::isnan(p)) continue;
 		add("PMF_Binomial", "p=" + mc::dec(p), s, [=]() { return PMF_Binomial(10, p, 3); });
 		add("CDF_Binomial", "p=" + mc::dec(p), s, [=]() { return CDF_Binomial(10, p, 3); });
 	}
-	for(double mu : {-1e-9, 0.0, 2.5})
+	for(double mu : {-1e-9, 0.0, -0.0, 2.5})
 	{
 		Side s = mu >= 0 ? ACCEPT : REJECT;
 		add("PMF_Poisson", "mean=" + mc::dec(mu), s, [=]() { return PMF_Poisson(mu, 2); });
@@ -338,8 +338,8 @@ static void build_table()
 		add("GammaP", l, s, [=]() { return GammaP(xa.first, xa.second); });
 	}
 	// both arguments together: the complete product of the boundary values (a guard may sit behind a shortcut for one argument)
-	for(double x : {-1.0, -1e-9, 0.0, 1e-300, 1.0, 50.0})
-		for(double a : {-2.0, 0.0, 1e-3, 1.0, 150.0})
+	for(double x : {-1.0, -1e-9, 0.0, -0.0, 1e-300, 1.0, 50.0})
+		for(double a : {-2.0, 0.0, -0.0, 1e-3, 1.0, 150.0})
 		{
 			Side s = (x >= 0 && a > 0) ? ACCEPT : REJECT;
 			std::string l = "product,x=" + mc::dec(x) + ",a=" + mc::dec(a);
@@ -355,7 +355,7 @@ static void build_table()
 		add("VSH_Y_Component", "component=" + std::to_string(c), (c >= 0 && c <= 2) ? ACCEPT : REJECT, [=]() { return VSH_Y_Component(c, 2, 1, 3, 2).real(); });
 		add("VSH_Psi_Component", "component=" + std::to_string(c), (c >= 0 && c <= 2) ? ACCEPT : REJECT, [=]() { return VSH_Psi_Component(c, 2, 1, 3, 2).real(); });
 	}
-	for(double p : {-1.0 - 1e-9, -1.0, -0.999, 0.0, 0.999, 1.0, 1.5})
+	for(double p : {-1.0 - 1e-9, -1.0, -0.999, 0.0, -0.0, 0.999, 1.0, 1.5})
 		add("Inv_Erf", "p=" + mc::dec(p), (std::fabs(p) <= 1.0) ? ACCEPT : REJECT, [=]() { return Inv_Erf(p); });	// the ends +-1 are answered +-10 (documented saturation)
 	// ---- lists, files, utilities ---------------------------------------------------------------------------------------
 	add("Transpose_Lists", "equal_lengths", ACCEPT, []() { return Transpose_Lists(VV{{1, 2, 3}, {4, 5, 6}})[2][1]; });
